@@ -701,7 +701,17 @@ def replay_record(case, res, observed, expected):
     c = {k: v for k, v in case.items() if k not in ("base", "want_log")}
     return {"case": c, "argv": res["argv"], "env": res["env"], "fault": case.get("fault"),
             "scenario": case.get("scenario"), "strace": case.get("strace"),
-            "prior_state": case["prior"], "write_mode": case["wmode"], "fork": case["fork"],
+            "prior_state": case["prior"],
+            "prior_state_setup": {
+                "absent": "nothing at the output path",
+                "older": "prior_file_b64 at the output path, mode 0755, mtime 2001-01-01",
+                "readonly": "prior_file_b64 at the output path, mode 0444, mtime 2001-01-01, "
+                            "directory and file owned by the unprivileged uid",
+                "unrelated": "300 lines of text at the output path, mode 0644, mtime 2001-01-01",
+                "dir": "a directory at the output path"}[case["prior"]],
+            "prior_file_b64": (base64.b64encode(CTX["progs"][case["prog"]]["older"]).decode()
+                               if case["prior"] in ("older", "readonly") else None),
+            "write_mode": case["wmode"], "fork": case["fork"],
             "threads": case["threads"], "unprivileged_uid": UNPRIV if res["unpriv"] else None,
             "observed": observed, "expected": expected, "inputs_b64": blobs,
             "input_sources": {n: P["sources"].get(n) for n in inputs},
